@@ -259,11 +259,11 @@ def pyRepeat {α : Type} (l : List α) (n : Num) : List α :=
   (List.replicate n.v.toNat l).flatten
 
 /-- loop with accumulator: `for x in xs: s = body(s, x)` -/
-def forM {α σ : Type} (xs : List α) (s : σ) (body : σ → α → M σ) : M σ :=
+def pyFor {α σ : Type} (xs : List α) (s : σ) (body : σ → α → M σ) : M σ :=
   match xs with
   | [] => .ok s
   | x :: rest => match body s x with
-    | .ok s' => forM rest s' body
+    | .ok s' => pyFor rest s' body
     | .error e => .error e
 
 /-- Marker emitted by the translator in place of a definition for a function that is outside the
